@@ -24,7 +24,9 @@ import (
 	"math"
 	"os"
 	"reflect"
+	"sync"
 	"time"
+	"unsafe"
 )
 
 type vndTapeT struct {
@@ -172,6 +174,42 @@ func vndLoopPhis(fn string) int { return -1 }
 // vndRequire: a structural premise of an argument made in DESIGN.md; if it does not hold the check is inconclusive.
 func vndRequire(c bool, why string) {}
 
+// vndLockState reports the state of the mutexes (sync.Mutex / sync.RWMutex fields, whatever their names) of the
+// struct obj points to: 0 = all free, 1 = one is held, 2 = the struct has no mutex field (the harness then skips its
+// lock-discipline obligations instead of guessing how the object is protected).
+func vndLockState(obj interface{}) int {
+	v := reflect.ValueOf(obj)
+	if v.Kind() != reflect.Ptr || v.Elem().Kind() != reflect.Struct {
+		return 2
+	}
+	v = v.Elem()
+	found := false
+	for i := 0; i < v.NumField(); i++ {
+		f := v.Field(i)
+		if !f.CanAddr() {
+			continue
+		}
+		switch m := reflect.NewAt(f.Type(), unsafe.Pointer(f.UnsafeAddr())).Interface().(type) {
+		case *sync.Mutex:
+			found = true
+			if !m.TryLock() {
+				return 1
+			}
+			m.Unlock()
+		case *sync.RWMutex:
+			found = true
+			if !m.TryLock() {
+				return 1
+			}
+			m.Unlock()
+		}
+	}
+	if !found {
+		return 2
+	}
+	return 0
+}
+
 // vndRaceDetect switches the executor's happens-before race detection on for the rest of the path; vndRaceCheck
 // reports what it found. Natively both do nothing: the replay of a race tape runs under go test -race.
 func vndRaceDetect() {}
@@ -306,6 +344,30 @@ func (x *Exec) vnd(name string, args []Value) Value {
 		return args[0]
 	case "vndSettle", "vndYield":
 		return nil
+	case "vndLockState":
+		ifc, ok := args[0].(Iface)
+		if !ok {
+			return x.i64(2)
+		}
+		p, ok := ifc.V.(Ptr)
+		if !ok || p.C == nil {
+			return x.i64(2)
+		}
+		found := false
+		for _, k := range p.C.Kids {
+			n, isNamed := k.T.(*types.Named)
+			if !isNamed || n.Obj().Pkg() == nil || n.Obj().Pkg().Path() != "sync" || (n.Obj().Name() != "Mutex" && n.Obj().Name() != "RWMutex") {
+				continue
+			}
+			found = true
+			if x.mutexHeld[k] != 0 {
+				return x.i64(1)
+			}
+		}
+		if !found {
+			return x.i64(2)
+		}
+		return x.i64(0)
 	case "vndRaceDetect":
 		if x.race == nil {
 			x.race = newRaceState()
